@@ -902,6 +902,12 @@ class Emitter:
             else:
                 w('  VF_REACH("%s");' % label)
             return True
+        if name == 'vf_atomic_begin':
+            w('  __CPROVER_atomic_begin();')
+            return True
+        if name == 'vf_atomic_end':
+            w('  __CPROVER_atomic_end();')
+            return True
         if name == 'vf_assume':
             w('  __CPROVER_assume(%s);' % self.val(a[0]))
             return True
